@@ -1,7 +1,8 @@
 #!/bin/bash
 # Runs every registered check (tier $1, default quick) sequentially; prints a summary.
 tier=${1:-quick}
-cd /verif
+root=${VERIF_ROOT:-/verif}
+cd $root
 for p in $(python3 -c "import json;print(' '.join(sorted(json.load(open('checks.json')))))"); do
   s=$(date +%s)
   out=$(./bin/gosym check $p $tier 2>&1); rc=$?
